@@ -6,6 +6,8 @@ mod bridge;
 mod case;
 mod catalog;
 mod exec;
+mod families_gen;
+mod skew;
 mod stats;
 mod wal;
 
@@ -103,6 +105,14 @@ fn cmd_run(args: &[String]) -> i32 {
                 let cfg = wal::Config { focus: focus.clone(), max_buf: 64 << 10, enumerate_cuts: true };
                 wal::run(&cat, &cfg, &mut stats, rs)
             }
+            "skew" => {
+                let cfg = skew::Config {
+                    focus: focus.clone(),
+                    size_cap: arg(args, "--size-cap").map(|x| x.parse().unwrap()).unwrap_or(usize::MAX),
+                    event_cap: arg(args, "--event-cap").map(|x| x.parse().unwrap()).unwrap_or(usize::MAX),
+                };
+                skew::run(&cat, &cfg, &mut stats, rs)
+            }
             other => {
                 eprintln!("unknown engine {other}");
                 return 2;
@@ -154,26 +164,12 @@ fn load_case(path: &str) -> (Value, Case) {
     (v, c)
 }
 
-fn texts(v: &Value) -> (Option<String>, Vec<(String, String)>) {
-    let exp = v["expected"].as_str().map(|s| s.to_string());
-    let batch = v["batch"]
-        .as_array()
-        .map(|a| {
-            a.iter()
-                .map(|x| (x[0].as_str().unwrap().to_string(), x[1].as_str().unwrap().to_string()))
-                .collect()
-        })
-        .unwrap_or_default();
-    (exp, batch)
-}
-
 /// exit 1 + VIOLATION line if the case in the file still violates its clause, 0 otherwise
 fn cmd_replay(args: &[String]) -> i32 {
     let path = args.get(2).expect("replay <file>");
-    let (v, c) = load_case(path);
+    let (_v, c) = load_case(path);
     let cat = catalog::builtin_catalog();
-    let (exp, batch) = texts(&v);
-    let ev = eval(&cat, &c, exp.as_deref(), &batch);
+    let ev = eval(&cat, &c);
     match ev.finding {
         Some(f) => {
             println!("reproduced: property={} clause={} class={} type={} : {}", c.prop, c.clause, f.class, c.read_as, f.detail);
@@ -193,10 +189,9 @@ fn cmd_minimise(args: &[String]) -> i32 {
     let outp = args.get(3).expect("minimise <in> <out>");
     let (mut v, mut c) = load_case(path);
     let cat = catalog::builtin_catalog();
-    let (exp, batch) = texts(&v);
     let class = v["class"].as_str().unwrap_or("").to_string();
     let still = |c: &Case| -> bool {
-        match eval(&cat, c, exp.as_deref(), &batch).finding {
+        match eval(&cat, c).finding {
             Some(f) => f.class == class,
             None => false,
         }
@@ -207,7 +202,11 @@ fn cmd_minimise(args: &[String]) -> i32 {
         return 0;
     }
     // clauses with an expected value keep the valid encoding intact and only shrink the suffix
-    let keep = if c.clause == "self-delimiting" || c.clause == "batch" { c.enc_len } else { 0 };
+    let keep = if c.clause == "self-delimiting" || c.clause == "batch" || c.clause == "script" {
+        c.enc_len.min(c.input.len())
+    } else {
+        0
+    };
     let mut steps = 0;
     // 1. truncate the tail
     loop {
@@ -234,7 +233,7 @@ fn cmd_minimise(args: &[String]) -> i32 {
         }
     }
     // 2. delete single bytes / small blocks
-    if keep == 0 {
+    if keep == 0 && c.clause != "ctor-index" && c.clause != "script" {
         let mut block = 8;
         while block >= 1 {
             let mut i = 0;
@@ -262,7 +261,7 @@ fn cmd_minimise(args: &[String]) -> i32 {
             }
         }
     }
-    let ev = eval(&cat, &c, exp.as_deref(), &batch);
+    let ev = eval(&cat, &c);
     let o = v.as_object_mut().unwrap();
     o.insert("input_hex".into(), json!(model::hex(&c.input)));
     o.insert("minimised".into(), json!(true));
